@@ -73,6 +73,7 @@ Plan gen_repair(uint64_t seed, const string &prop) {
   }
   p.seti("loss", (long)r.below(6));
   p.seti("kill", r.chance(0.35));
+  if (r.chance(0.4)) { Config n = random_config(r); string enc = n.str(); for (auto &ch : enc) if (ch == ' ') ch = ','; p.params["repair_cfg"] = enc; }
   p.seti("twice", r.chance(0.2)); // ldb_repair run twice in a row (the second one finds the first one's descriptor)
   p.seti("followups", (long)r.range(1, 4));
   return p;
@@ -137,7 +138,10 @@ void exec_repair(const Plan &p, RunOut *out) {
     simfs::Journal journal;
     size_t jfrom = 0; // journal position at which the (last) repair starts
     if (!failed()) {
-      DbOptions opt; opt.set(p.cfg, false);
+      // the process that repairs need not use the writer's options (block size, compression, filter policy, caches...)
+      Config rc_cfg = p.cfg;
+      if (p.params.count("repair_cfg")) { Config n; string enc = p.params.at("repair_cfg"); for (auto &ch : enc) if (ch == ',') ch = ' '; if (n.parse(enc)) { n.cmp = p.cfg.cmp; n.rlimit = p.cfg.rlimit; rc_cfg = n; probe("repair_under_other_options"); } }
+      DbOptions opt; opt.set(rc_cfg, false);
       simfs::start_recording(&journal, dir);
       int rc = ldb_repair(dir.c_str(), &opt.o);
       count("repairs");
